@@ -159,3 +159,23 @@ PLANS["C19"] = dict(
     clauses={"returns the named formula": "proved (formula clauses + static binding of the normaliser)", "normaliser = truncated zeta / polylog series": "proved (partial_sum, stops_at_first_small_term)",
              "non-negative, agrees with the exact law within the truncation tolerance, sums to 1 within it": "bounded (mpmath, parameter grid)"},
     not_decided=["tail size of the truncated series and termination of the series loops for all parameters (analysis, not program logic)"])
+
+PLANS["C15"] = dict(
+    level="exploration", bounded="c15",
+    modules=[dict(name="autoeq")],
+    technique="bounded (labelled stand-in): the real automated_equation is executed on an exact polynomial ring and compared as a polynomial with the brute-force expectation for every connected motif up to the bound and every focal vertex, plus shared-evaluator histories; structural contract obligations over the real AST for the cache/history clause",
+    level_text="That the backtracking enumeration lists every connected vertex set once and that the per-component formula sums to the expectation is a combinatorial theorem that no contract within reach of the installed tooling proves for all graphs; the deciding check is therefore bounded, but complete in phi and u for each motif (a polynomial identity, not sample points). The history clause has a proved sufficient condition (the caches hold structure only and are keyed by motif name and all parameters; no other evaluator state).",
+    level_note="Bound: connected graphs with <= 5 vertices (6 thorough, <= 11 edges), all focal vertices, cliques <= 6/7, cycles <= 8/10; histories of 3-5 calls. The code's 0.0/1.0/pow are exact on the polynomial ring. Structural obligations are sufficient conditions: if they stop holding the clause is undecided and only the bounded histories decide.",
+    explanation="BOUNDED (exhaustive inside the bound): polynomial identity automated_equation == E[prod u over the focal component] for every connected atlas motif and focal vertex; interleaved histories on one evaluator with different u symbols, phi symbols and focal vertices compared with the exact expectation and with fresh evaluators. STRUCTURAL (discharged on the AST): caches_hold_structure_only, cache_keys_name_the_motif_and_all_parameters, no_other_state.",
+    clauses={"equals the exact bond-percolation expectation as a polynomial": "bounded, exhaustive inside the bound", "value does not depend on earlier calls": "structural sufficient condition discharged + bounded histories"},
+    not_decided=["motifs larger than the bound"])
+PLANS["C16"] = dict(
+    level="exploration", bounded="c16",
+    modules=[dict(name="omega")],
+    technique="bounded (labelled stand-in): the real clique and cycle equations executed on exact polynomials against the brute-force expectation, Q against QQ, an independent enumeration and the defining component identity, the connected-subgraph counter against an independent enumeration; the closure omega is verified deductively (loop invariant, nonlinear integer identity)",
+    level_text="The closed forms are polynomial identities whose proof is combinatorics outside the reach of the installed solvers for all tau/n; decided inside a stated bound, complete in phi and the neighbour values. The one program-logic nugget, omega(tau, kappa) == (tau-kappa-1)(kappa+1), is proved for all arguments.",
+    level_note="Bound: tau <= 5 (6), n <= 9 (11), Q=QQ for n <= 6 (7), component identity for n <= 12 (14) and all k (this identity determines Q uniquely; that it characterises connected labelled graphs is meta-lemma M-HP), counter on all atlas graphs <= 5 (6) vertices, all vertex subsets, all k.",
+    explanation="PROVED: clique_equation.omega interface_edges (7 obligations). BOUNDED: clique_equation with distinct and repeated neighbour symbols incl. call sequences, chordless_cycle_equation, Q, QQ, number_of_connected_graphs.",
+    clauses={"clique equation exact for heterogeneous neighbour values": "bounded (polynomial identity, tau <= 5/6)", "cycle equation exact": "bounded (n <= 9/11)",
+             "coefficient = number of connected labelled graphs (both implementations)": "bounded (enumeration n <= 6/7; identity n <= 12/14)", "connected-subgraph counter exact": "bounded (atlas <= 5/6 vertices)"},
+    assumptions=["M-HP: the component identity characterises the number of connected labelled graphs (textbook)"], not_decided=["sizes beyond the bound"])
